@@ -1,0 +1,43 @@
+//go:build verif
+
+package file
+
+import (
+	"sync/atomic"
+
+	"github.com/fsnotify/fsnotify"
+)
+
+// Instrumentation for the external verification harness (build tag `verif`).
+// Nothing in this file changes the behaviour of the package.
+
+type verifEventHook func(ws *WatchingSource, name string)
+
+var verifHook atomic.Value // of verifEventHook
+
+// VerifSetEventHook installs (or, with nil, removes) a function that watchLoop
+// calls with the name of every fsnotify event it receives, before the
+// event-name filter is applied.  The call is made on the watchLoop goroutine;
+// every earlier event has been handled completely when it is made.
+func VerifSetEventHook(h func(ws *WatchingSource, name string)) {
+	verifHook.Store(verifEventHook(h))
+}
+
+func verifEvent(ws *WatchingSource, name string) {
+	if h, _ := verifHook.Load().(verifEventHook); h != nil {
+		h(ws, name)
+	}
+}
+
+// VerifWatcher exposes the fsnotify watcher of a source on which Watch has
+// been called (nil before).
+func (ws *WatchingSource) VerifWatcher() *fsnotify.Watcher { return ws.watcher }
+
+// VerifWatchList returns the paths currently watched by the fsnotify watcher
+// (nil before Watch and after the watcher was closed).
+func (ws *WatchingSource) VerifWatchList() []string {
+	if ws.watcher == nil {
+		return nil
+	}
+	return ws.watcher.WatchList()
+}
